@@ -243,6 +243,8 @@ def base_streams() -> Dict[str, List[Tuple[int, bytes]]]:
     s["SF,FF+2CF"] = [(RX, f) for f in segment(pattern(3, 7), 8, None) + segment(pattern(16, 8), 8, None)]
     s["FF+2CF,FF+2CF"] = [(RX, f) for f in segment(pattern(17, 9), 8, None) + segment(pattern(18, 10), 8, 0x55)]
     s["FF+41CF"] = [(RX, f) for f in segment(pattern(6 + 7 * 40 + 5, 11), 8, 0xAA)]  # 291 bytes: the announced length needs its high nibble
+    s["FD:FF+2CF"] = [(RX, f) for f in segment(pattern(150, 12), 64, 0xAA)]  # 64-byte frames: consecutive frames carry 63 bytes
+    s["FD:FF+1CF,SF"] = [(RX, f) for f in segment(pattern(21, 13), 12, None) + segment(pattern(10, 14), 12, None)]  # 12-byte frames, exact-fit escape SF
     return s
 
 
@@ -250,7 +252,8 @@ def base_payloads() -> Dict[str, Dict[int, List[bytes]]]:
     """What each base stream transfers per ID (same arguments as in base_streams)."""
     return {"SF": {RX: [pattern(5)]}, "FF+2CF": {RX: [pattern(18, 3)]}, "FF+17CF": {RX: [pattern(6 + 7 * 16 + 3, 4)]},
             "2ids-interleaved": {RX: [pattern(18, 5)], RX2: [pattern(15, 6)]}, "SF,FF+2CF": {RX: [pattern(3, 7), pattern(16, 8)]},
-            "FF+2CF,FF+2CF": {RX: [pattern(17, 9), pattern(18, 10)]}, "FF+41CF": {RX: [pattern(6 + 7 * 40 + 5, 11)]}}
+            "FF+2CF,FF+2CF": {RX: [pattern(17, 9), pattern(18, 10)]}, "FF+41CF": {RX: [pattern(6 + 7 * 40 + 5, 11)]},
+            "FD:FF+2CF": {RX: [pattern(150, 12)]}, "FD:FF+1CF,SF": {RX: [pattern(21, 13), pattern(10, 14)]}}
 
 
 def fault_menu(stream: List[Tuple[int, bytes]], pos: int) -> List[Tuple[str, List[Tuple[int, bytes]]]]:
@@ -342,6 +345,20 @@ def text_path(frames: List[Tuple[int, bytes]], r: Run) -> List[Tuple[str, str]]:
             continue
         if got != r.outputs:
             out.append((f"C13/text-{fmt}/differs-from-frame-api", f"text: {[fh(t) for _, t in got]} frames: {[fh(t) for _, t in r.outputs]}"))
+    # blank and whitespace-only lines between the frames are not the end of the log
+    for fmt in ("normal", "log"):
+        lines = render(frames, fmt).splitlines()
+        text = "".join(ln + "\n" + ("\n", "   \n")[k % 2] for k, ln in enumerate(lines))
+        try:
+            with contextlib.redirect_stderr(_SINK):
+                got = [(i, bytes(t)) for i, t in drive_async(IsoTpStateMachine(list(r.ids)).read_telegrams(io.StringIO(text)))]
+            _SINK.seek(0)
+            _SINK.truncate()
+        except Exception as e:  # noqa
+            out.append((f"C13/text-{fmt}-blank-lines/raises/{type(e).__name__}", f"{type(e).__name__}: {e}"))
+            continue
+        if got != r.outputs:
+            out.append((f"C13/text-{fmt}-blank-lines/differs-from-frame-api", f"text: {[fh(t) for _, t in got]} frames: {[fh(t) for _, t in r.outputs]}"))
     # a compact log whose lines are cut in the middle of the last byte: the lone hex digit is read as a byte of its own
     cut = [(c, d[:-1] + bytes([d[-1] >> 4])) for c, d in frames if len(d) >= 1]
     text = "".join(f"({1000 + k}.000000) can0 {c:03X}#{d.hex().upper()[:-1]}\n" for k, (c, d) in enumerate(frames) if len(d) >= 1)
